@@ -11,7 +11,7 @@
    `pool_src_switches` is read from the Go source on every run (Gen/PoolSrc.v).  The theorems are stated for the
    code that is in the tree: if one of the repaired spots regresses, `exact` below no longer type-checks. *)
 From Coq Require Import List ZArith Bool.
-From MV Require Import Model.Pool Gen.PoolSrc Proofs.Pool.
+From MV Require Import Model.Pool Model.PoolMx Gen.PoolSrc Proofs.Pool Proofs.PoolMx.
 Import ListNotations.
 Open Scope Z_scope.
 
@@ -120,4 +120,63 @@ Example c09_defect_http_remote_reset_reuse :
   let k := mkCfg Http1 0 0 (mkSw true false true true) in
   let p := run k [NewStream DialOk true; RemoteReset 0] init in
   closed p 0 = false /\ idle p = [0%nat] /\ snd (step k p (NewStream DialOk true)) = RL 0%nat.
+Proof. vm_compute. repeat split; reflexivity. Qed.
+
+(* ============================================================================================================ *)
+(* Multiplex pool (pkg/stream/xprotocol/connpool_multiplex.go, Model/PoolMx.v, one slot).  `mrun k ops minit` is the
+   pool after the history `ops` of {MInit dial (CheckAndInit + its init goroutine), MNew, MResponse, MReset, MConnClose
+   with every close event kind, MGoAway, MShutdown, MExtReq}; `poolmx_src_switches` is read from the source. *)
+
+(* No connection is lost.  After every history: the slot holds an open connection (if any); every open connection is
+   the pool's current one or a go-away connection still draining at least one stream - so a drained go-away connection
+   is closed and no healthy connection lives outside the pool; live streams sit on open connections; the Requests
+   resource counts the live streams; one OnDestroyStream and at most one response per stream. *)
+Theorem c09_multiplex_no_orphan : forall k ops, mk_sw k = poolmx_src_switches -> let p := mrun k ops minit in
+  (forall c, mslot p = SClient c -> (c < mnclients p)%nat /\ mclosed p c = false) /\
+  (forall c, (c < mnclients p)%nat -> mclosed p c = false ->
+     mslot p = SClient c \/ (mc_goaway (mcl p c) = true /\ (mactive p c >= 1)%nat)) /\
+  (forall c, (c < mnclients p)%nat -> mclosed p c = false -> mc_goaway (mcl p c) = true -> (mactive p c >= 1)%nat) /\
+  (forall s, (s < mnstreams p)%nat -> mlive p s = true -> mclosed p (mscli p s) = false) /\
+  mreq p = (if mk_max_req k =? 0 then 0 else Z.of_nat (mcount_live p) + mext p) /\ 0 <= mext p /\
+  (forall s, (s < mnstreams p)%nat -> (ms_destroys (mst p s) <= 1)%nat /\ (ms_recv (mst p s) <= 1)%nat).
+Proof. exact mx_no_orphan. Qed.
+Print Assumptions c09_multiplex_no_orphan.
+
+(* A stream is created only on the pool's current connection: open, Connected, no go-away received. *)
+Theorem c09_multiplex_lease_sound : forall k ops c, mk_sw k = poolmx_src_switches -> let p := mrun k ops minit in
+  snd (mstep k p MNew) = MRL c ->
+  mslot p = SClient c /\ mclosed p c = false /\ mc_state (mcl p c) = st_connected /\ mc_goaway (mcl p c) = false.
+Proof. exact mx_lease_sound. Qed.
+Print Assumptions c09_multiplex_lease_sound.
+
+(* Capacity returns: after every history, unless the pool was shut down, an empty slot or a slot holding a go-away
+   connection is refilled by one CheckAndInit whose dial succeeds, and NewStream is then granted on the new connection. *)
+Theorem c09_multiplex_capacity_returns : forall k ops, mk_sw k = poolmx_src_switches -> let p := mrun k ops minit in
+  mshut p = false ->
+  (mslot p = SEmpty \/ exists c, mslot p = SClient c /\ mc_state (mcl p c) = st_goaway) ->
+  let p' := fst (mstep k p (MInit DialOk)) in
+  mslot p' = SClient (mnclients p) /\ mc_state (mcl p' (mnclients p)) = st_connected /\ mclosed p' (mnclients p) = false /\
+  (mcan_create k p' = true -> snd (mstep k p' MNew) = MRL (mnclients p)).
+Proof. exact mx_capacity_returns. Qed.
+Print Assumptions c09_multiplex_capacity_returns.
+
+(* non-vacuity: go-away while a stream is in flight, re-init, drain: the old connection is closed when its stream ends,
+   the new one stays in the slot; the later close event of the old one does not touch the slot *)
+Example c09_example_multiplex :
+  let k := mkMCfg 0 poolmx_src_switches in
+  let p := mrun k [MInit DialOk; MNew; MGoAway 0; MInit DialOk; MNew; MResponse 0] minit in
+  mnclients p = 2%nat /\ mclosed p 0 = true /\ mclosed p 1 = false /\ mslot p = SClient 1%nat /\ mactive p 1 = 1%nat /\
+  mslot (fst (mstep k p (MConnClose 1 EvReadErr))) = SEmpty /\
+  snd (mstep k (mrun k [MInit DialOk; MNew; MGoAway 0] minit) MNew) = MRF.
+Proof. vm_compute. repeat split; reflexivity. Qed.
+
+(* the repaired multiplex defect (b192d4c7e), as a fact about the model with the switches off: after go-away + re-init
+   the drained connection 0 stays open, and when it closes later the slot - which holds the healthy connection 1 - is
+   emptied: connection 1 is open outside the pool and the next CheckAndInit dials a third connection *)
+Example c09_defect_multiplex_goaway :
+  let k := mkMCfg 0 (mkMxSw false false) in
+  let p := mrun k [MInit DialOk; MNew; MGoAway 0; MInit DialOk; MResponse 0] minit in
+  mclosed p 0 = false /\ mactive p 0 = 0%nat /\ mslot p = SClient 1%nat /\
+  let q := fst (mstep k p (MConnClose 0 EvRemote)) in
+  mslot q = SEmpty /\ mclosed q 1 = false /\ mnclients (fst (mstep k q (MInit DialOk))) = 3%nat.
 Proof. vm_compute. repeat split; reflexivity. Qed.
